@@ -289,16 +289,36 @@ func c20Scenario(t *core.T, hs []c20Handler, pb, limit int) sched.Stats {
 	scen := strings.Join(names, "||")
 	// serial orders: the set of acceptable (final state, outcomes) pairs
 	serial := map[string]bool{}
+	hung := ""
 	perm(len(hs), func(order []int) {
+		if hung != "" || c19Hung {
+			return
+		}
 		srv, ms := c20Server()
 		obs := make([]c20Obs, len(hs))
 		for _, i := range order {
 			w := &strictWriter{hdr: http.Header{}}
-			srv.ServeHTTP(w, hs[i].req())
+			// these run outside the scheduler, on the real locks: a request that blocks on the server's own lock would block for ever
+			if !returnsWithin(30*time.Second, func() { srv.ServeHTTP(w, hs[i].req()) }) {
+				hung, c19Hung = "request "+hs[i].name+" run on its own, one request after the other", true
+				return
+			}
 			obs[i] = c20Obs{code: w.code, assertion: hasAssertionForm(w.body.Bytes()), done: true}
 		}
-		serial[c20Outcome(obs)+" :: "+c20Digest(srv, ms)] = true
+		d := c20Digest(srv, ms)
+		if strings.Contains(d, registryLookupHung) {
+			hung = "GetServiceProvider after the requests " + scen + " had completed one after the other"
+			return
+		}
+		serial[c20Outcome(obs)+" :: "+d] = true
 	})
+	if hung != "" || c19Hung {
+		if hung == "" {
+			hung = "an earlier scenario of this process"
+		}
+		t.Fail("C20/deadlock/never-returns-without-any-concurrency", "%s did not return within 30 s: it blocks on a lock its own goroutine holds", hung)
+		return sched.Stats{}
+	}
 	var srv *samlidp.Server
 	var ms *samlidp.MemoryStore
 	var obs []c20Obs
@@ -348,6 +368,10 @@ func c20Scenario(t *core.T, hs []c20Handler, pb, limit int) sched.Stats {
 			}
 		}
 		got := c20Outcome(obs) + " :: " + c20Digest(srv, ms)
+		if strings.Contains(got, registryLookupHung) {
+			fail("deadlock/registry-lookup-never-returns", "after the requests had completed, GetServiceProvider for a registered / an unregistered entity ID did not return within 30 s (a lookup that blocks on the server's own lock)")
+			return false
+		}
 		outcomes[got] = true
 		if !serial[got] {
 			// Not a violation of C20 as stated (no data race, no deadlock, every request completes, store linearizable):
